@@ -110,6 +110,7 @@ def run_world(w: World, only=None):
     built, switches = {}, {}
     sessions = {}
     nextop = {}
+    del SPY_LOG[:]
     active = []         # stack of member indices whose operation is in progress
     members = list(range(len(w.members))) if only is None else list(only)
 
@@ -218,6 +219,17 @@ def run_world(w: World, only=None):
         try:
             enter_rt.cur = rt          # anything that runs during the copy is the clone's business
             sm = s.rt.sm
+            # things going on around the original that must not reach its copies: the caller appends to the very
+            # list it once passed as `listeners=` (it was never attached to anything); a shallow copy of the
+            # original gets a listener of its own
+            import zlib
+            mode = zlib.crc32(f"{m.scn.name}:{ci}".encode()) % 5
+            if mode == 1 and isinstance(getattr(s, "ctor_list", None), list):
+                s.ctor_list.append(Spy())
+                s.ctor_len = len(s.ctor_list)
+            elif mode == 2:
+                twin = copy.copy(sm)
+                twin.add_listener(Spy())
             if mech == "pickle":
                 import pickle
                 clone = pickle.loads(pickle.dumps(sm))
@@ -284,7 +296,37 @@ def run_world(w: World, only=None):
     for mi in members:
         s = session(mi)
         out[mi] = s.rt.lines
+    if SPY_LOG:
+        for mi in out:
+            out[mi] = out[mi] + [f"X a listener that was never attached to this machine (or the one it was copied from) "
+                                 f"was invoked: {SPY_LOG[0]}"]
     return out
+
+
+SPY_LOG = []
+
+
+class Spy:
+    """a listener object that must never be invoked: it is only ever attached to a shallow copy, or merely sits in
+    a list the caller owns"""
+
+    def _hit(self, what):
+        SPY_LOG.append(what)
+
+    def on_enter_state(self):
+        self._hit("on_enter_state")
+
+    def on_exit_state(self):
+        self._hit("on_exit_state")
+
+    def before_transition(self):
+        self._hit("before_transition")
+
+    def on_transition(self):
+        self._hit("on_transition")
+
+    def after_transition(self):
+        self._hit("after_transition")
 
 
 def normalize_world(w: World):
